@@ -117,41 +117,53 @@ class Minimizer:
                     cands.append(c)
             if cands and attempt(cands):
                 changed = True
-        # 3. drop ops (from the end), warm-up first
+        # 3. drop ops: ddmin over contiguous chunks (halves, quarters, ... single ops),
+        #    sixteen candidates per round in parallel; warm-up first, then each thread
+        def get_ops(sp, which):
+            return sp["warmup"] if which == "warmup" else sp["threads"][which]
+
+        def with_ops(sp, which, new):
+            c = copy.deepcopy(sp)
+            if which == "warmup":
+                c["warmup"] = new
+            else:
+                c["threads"][which] = new
+                c["schedule"] = None
+            return c
+
         for which in ["warmup"] + list(range(len(best["threads"]))):
-            progress = True
-            while progress:
-                progress = False
-                ops = best["warmup"] if which == "warmup" else best["threads"][which]
-                # halves first, then single ops
-                n = len(ops)
-                cands = []
-                if which == "warmup" and n > 3:
-                    c = copy.deepcopy(best)
-                    c["warmup"] = _cut(ops, n // 2, n)
-                    cands.append(c)
-                    c = copy.deepcopy(best)
-                    c["warmup"] = _cut(ops, 0, n // 2)
-                    cands.append(c)
-                for k in range(n - 1, -1, -1):
-                    new = _drop_op(ops, k)
-                    if new is None or len(new) == n:
-                        continue
-                    c = copy.deepcopy(best)
-                    if which == "warmup":
-                        c["warmup"] = new
-                    else:
-                        if not new and len(c["threads"]) == 1:
-                            continue
-                        c["threads"][which] = new
-                        c["schedule"] = None
-                    cands.append(c)
-                    if len(cands) >= 16:
-                        break
-                if cands and attempt(cands):
-                    progress = True
+            n = len(get_ops(best, which))
+            chunk = max(1, n // 2)
+            while chunk >= 1 and n > 0:
                 if self.tried >= self.budget_runs or time.monotonic() > self.t_end:
                     break
+                ops = get_ops(best, which)
+                n = len(ops)
+                cands = []
+                starts = list(range(0, n, chunk))
+                starts.reverse()  # later ops first: fewer dependants
+                for st in starts:
+                    new = _cut(ops, st, min(n, st + chunk))
+                    if len(new) >= n:
+                        continue
+                    if not new and which != "warmup" and len(best["threads"]) == 1:
+                        continue
+                    cands.append(with_ops(best, which, new))
+                progressed = False
+                for k in range(0, len(cands), 16):
+                    if attempt(cands[k : k + 16]):
+                        progressed = True
+                        break
+                if progressed:
+                    n = len(get_ops(best, which))
+                    chunk = max(1, min(chunk, n // 2)) if n > 1 else 1
+                    if n <= 1 and chunk == 1:
+                        # try once more to drop the last op, then stop
+                        continue
+                else:
+                    if chunk == 1:
+                        break
+                    chunk = max(1, chunk // 2)
         # 4. drop faults one by one
         cands = []
         for which in ["warmup"] + list(range(len(best["threads"]))):
